@@ -242,6 +242,8 @@ try:
     for c in job['calls']:
         pre = w.project()
         res = w.apply(c)
+        if w.extra_links:
+            break               # the sequence left the object pool the judge is sized for: stop here
         out['records'].append({'pre': pre, 'c': c, 'res': res, 'post': w.project()})
     S2 = w.project()
     out['state_after'] = S2
